@@ -29,19 +29,29 @@ Proof. cbn [link_consistent link_fold andb]. apply link_fold_consistent. Qed.
 
 Definition is_internal (s : list fundecl) : bool := match fun_linkage s with Some L_internal => true | _ => false end.
 
-Lemma static_model d1 s' : valid_funseq (d1 :: s') = true -> kb_inline_first_seq (d1 :: s') = false ->
-  first_static d1 = is_internal (d1 :: s') || inline_definition_only (d1 :: s').
+Lemma clears_all r : (forall x, In x r -> fun_link_step (Some L_external) (fd_sc x) = L_external) ->
+  negb (existsb clears r) = forallb inline_no_extern r.
 Proof.
-  intros V K. unfold valid_funseq in V. apply andb_true_iff in V as [V _]. destruct (link_first _ d1 s' V) as [E _].
-  unfold is_internal, inline_definition_only, fun_linkage. rewrite E. unfold first_static, kb_inline_first_seq in *.
-  cbn [forallb] in *. unfold inline_no_extern at 1 in K. unfold inline_no_extern at 1.
-  destruct (fd_sc d1), (fd_inl d1); cbn in *; try reflexivity.
-  destruct (forallb inline_no_extern s'); [reflexivity|discriminate].
+  induction r as [|x r IH]; intros Hall; [reflexivity|]. cbn [existsb forallb].
+  assert (Hx : clears x = negb (inline_no_extern x)).
+  { specialize (Hall x (or_introl eq_refl)). unfold clears, clears_inline_def, inline_no_extern.
+    destruct (fd_sc x), (fd_inl x); cbn in *; try reflexivity; discriminate. }
+  rewrite Hx, <- IH by (intros y Hy; apply Hall; right; exact Hy). destruct (inline_no_extern x), (existsb clears r); reflexivity.
 Qed.
-Lemma skippable_model d1 s' : valid_funseq (d1 :: s') = true -> kb_inline_first_seq (d1 :: s') = false ->
-  skippable (d1 :: s') = first_static d1 && fd_inl d1.
+(* is_static after all declarations = internal linkage or a mere inline definition (85373f4 made this true for
+   every valid sequence; before, it needed the exclusion kb_inline_first) *)
+Lemma static_model d1 s' : valid_funseq (d1 :: s') = true ->
+  static_of (d1 :: s') = is_internal (d1 :: s') || inline_definition_only (d1 :: s').
 Proof.
-  intros V K. rewrite (static_model d1 s' V K). unfold skippable, is_internal. rewrite andb_comm. reflexivity.
+  intros V. unfold valid_funseq in V. apply andb_true_iff in V as [V _]. destruct (link_first _ d1 s' V) as [E Hall]. cbn beta in E, Hall.
+  unfold is_internal, inline_definition_only, fun_linkage. rewrite E. unfold static_of, idef0, first_static. cbn [forallb].
+  unfold inline_no_extern at 1.
+  destruct (fd_sc d1) eqn:Esc, (fd_inl d1) eqn:Ei; cbn; try reflexivity.
+  apply clears_all. intros x Hx. specialize (Hall x Hx). cbn in Hall. exact Hall.
+Qed.
+Lemma skippable_model d1 s' : valid_funseq (d1 :: s') = true -> skippable (d1 :: s') = static_of (d1 :: s') && inline_of (d1 :: s').
+Proof.
+  intros V. rewrite (static_model d1 s' V). unfold skippable, is_internal, inline_of. rewrite andb_comm. reflexivity.
 Qed.
 
 (* ---------- declared before use ---------- *)
@@ -82,7 +92,7 @@ Lemma acc_valid_gen n ta a0 : (ta <= a0)%Z -> forall r,
   (forall x, In x r -> o_align x = ta /\ match o_alignas x with Some a => a = a0 | None => True end) ->
   forall seen prev, spec_positions seen r = true \/ a0 = ta ->
   (if seen then prev = Some a0 else prev = None \/ prev = Some ta) ->
-  forall x, In x (acc_objs n prev r) -> exists od a, In od r /\ x = obj_of_decl n od a /\ (sc_eqb (o_sc od) SC_extern = false -> a = a0).
+  forall x, In x (acc_objs n prev r) -> exists od a, In od r /\ x = obj_of_decl n od a /\ (is_defining od = true -> a = a0).
 Proof.
   intros Hle. induction r as [|d r IH]; intros Hr seen prev Hpos Hprev x Hx; [contradiction|].
   cbn [acc_objs] in Hx. destruct (Hr d (or_introl eq_refl)) as [Hta Hsp].
@@ -94,7 +104,7 @@ Proof.
   destruct Hx as [<-|Hx].
   - exists d, (new_align d prev). split; [left; reflexivity|]. split; [reflexivity|]. intros He.
     destruct Hpos as [Hpos| ->].
-    + cbn [spec_positions] in Hpos. fold seen' in Hpos. rewrite He in Hpos. cbn [orb] in Hpos. apply andb_true_iff in Hpos as [Hs _]. rewrite Hs in Hnew. exact Hnew.
+    + cbn [spec_positions] in Hpos. fold seen' in Hpos. rewrite He in Hpos. cbn [negb orb] in Hpos. apply andb_true_iff in Hpos as [Hs _]. rewrite Hs in Hnew. exact Hnew.
     + destruct seen'; exact Hnew.
   - destruct (IH (fun y Hy => Hr y (or_intror Hy)) seen' (Some (new_align d prev))) with (x := x) as (od & a & Hin & E & Ha); [| |exact Hx|].
     + destruct Hpos as [Hpos|E]; [left|right; exact E]. cbn [spec_positions] in Hpos. fold seen' in Hpos. apply andb_true_iff in Hpos as [_ Hpos]. exact Hpos.
@@ -116,7 +126,7 @@ Qed.
 
 Lemma acc_align_valid n d1 s' : valid_objseq (d1 :: s') = true ->
   forall x, In x (acc_objs n None (d1 :: s')) ->
-  exists od a, In od (d1 :: s') /\ x = obj_of_decl n od a /\ (sc_eqb (o_sc od) SC_extern = false -> a = obj_align (d1 :: s')).
+  exists od a, In od (d1 :: s') /\ x = obj_of_decl n od a /\ (is_defining od = true -> a = obj_align (d1 :: s')).
 Proof.
   intros V. unfold valid_objseq in V. apply andb_true_iff in V as [V Va]. apply andb_true_iff in V as [V _]. apply andb_true_iff in V as [V _]. apply andb_true_iff in V as [V _].
   rewrite forallb_forall in V.
@@ -161,8 +171,7 @@ Qed.
 Section Valid.
 Variable ds : list decl.
 Hypothesis Hvalid : valid ds = true.
-Hypothesis HkbA : kb_extern_init ds = false.
-Hypothesis HkbB : kb_inline_first ds = false.
+Hypothesis HkbS : kb_extern_init_static ds = false.
 
 Lemma V_parts : declared_before_use [] ds = true /\ kinds_exclusive ds = true
   /\ forallb (fun n => valid_objseq (objseq n ds) && valid_funseq (funseq n ds)) (map decl_name ds) = true.
@@ -198,20 +207,16 @@ Proof.
   intros Hf. destruct V_parts as (_ & H & _). unfold kinds_exclusive in H. rewrite forallb_forall in H.
   specialize (H n (funseq_in n ds Hf)). destruct (funseq n ds); [contradiction|]. destruct (objseq n ds); [reflexivity|discriminate].
 Qed.
-Lemma V_kbB n : kb_inline_first_seq (funseq n ds) = false.
+Lemma V_kbS n od : In od (objseq n ds) -> sc_eqb (o_sc od) SC_extern = true -> has_init (o_init od) = true ->
+  match obj_linkage (objseq n ds) with Some L_internal => False | _ => True end.
 Proof.
-  destruct (funseq n ds) eqn:E; [reflexivity|]. rewrite <- E.
-  unfold kb_inline_first in HkbB. destruct (kb_inline_first_seq (funseq n ds)) eqn:K; [|reflexivity].
-  assert (Hx : existsb (fun n => kb_inline_first_seq (funseq n ds)) (declared_names ds) = true).
-  { apply existsb_exists. exists n. split; [|exact K]. unfold declared_names. apply nodup_In. apply funseq_in. rewrite E. discriminate. }
-  rewrite Hx in HkbB. discriminate.
+  intros Hin He Hi. destruct (obj_linkage (objseq n ds)) as [[|]|] eqn:El; try exact I. exfalso.
+  assert (Hx : kb_extern_init_static ds = true).
+  { apply existsb_exists. exists n. split; [apply objseq_in; intros E; rewrite E in Hin; contradiction|].
+    unfold kb_extern_init_static_seq. rewrite El. rewrite andb_true_r. apply existsb_exists. exists od. split; [exact Hin|rewrite He, Hi; reflexivity]. }
+  rewrite Hx in HkbS. discriminate.
 Qed.
-Lemma V_kbA n od : In (DObj n od) ds -> has_init (o_init od) = true -> sc_eqb (o_sc od) SC_extern = false.
-Proof.
-  intros Hin Hi. destruct (sc_eqb (o_sc od) SC_extern) eqn:E; [|reflexivity].
-  assert (Hx : kb_extern_init ds = true) by (apply existsb_exists; exists (DObj n od); split; [exact Hin|rewrite E, Hi; reflexivity]).
-  rewrite Hx in HkbA. discriminate.
-Qed.
+
 Lemma is_fun_name_iff n : is_fun_name ds n = true <-> funseq n ds <> [].
 Proof. unfold is_fun_name. destruct (funseq n ds); split; intros H; try discriminate; try contradiction; reflexivity. Qed.
 
@@ -271,7 +276,7 @@ Proof. apply inv_parse. exact V_step_ok. Qed.
 
 (* the function object of a function name *)
 Lemma fun_obj g d1 s' : funseq g ds = d1 :: s' ->
-  exists fo, filter (is_fun_named g) G = [fo] /\ flagsA g d1 (existsb has_body (d1 :: s')) (addr_taken_at_file_scope ds g) fo
+  exists fo, filter (is_fun_named g) G = [fo] /\ flagsA g (d1 :: s') (existsb has_body (d1 :: s')) (addr_taken_at_file_scope ds g) fo
              /\ ob_refs fo = funrefs (isf ds) (body_of (d1 :: s')) /\ urefs (ob_body fo) = ubody (kt ds) (body_of (d1 :: s')).
 Proof.
   intros E. pose proof (inv_g2 _ _ _ _ Ginv g) as H. rewrite E in H. destruct H as (fo & Ef & FA & FR & FB).
@@ -281,10 +286,10 @@ Qed.
 Lemma no_fun_obj g : funseq g ds = [] -> filter (is_fun_named g) G = [].
 Proof. intros E. pose proof (inv_g2 _ _ _ _ Ginv g) as H. rewrite E in H. exact H. Qed.
 
-Lemma ob_root_model g d1 s' fo : funseq g ds = d1 :: s' -> flagsA g d1 (existsb has_body (d1 :: s')) (addr_taken_at_file_scope ds g) fo ->
+Lemma ob_root_model g d1 s' fo : funseq g ds = d1 :: s' -> flagsA g (d1 :: s') (existsb has_body (d1 :: s')) (addr_taken_at_file_scope ds g) fo ->
   ob_root fo = negb (skippable (funseq g ds)) || addr_taken_at_file_scope ds g.
 Proof.
-  intros E (_ & _ & A3 & A4 & _ & A6 & _). rewrite A6, A3, A4, E. rewrite skippable_model; [reflexivity| |]; rewrite <- E; [apply V_funseq|apply V_kbB].
+  intros E (_ & _ & A3 & A4 & _ & A6 & _). rewrite A6, A3, A4, E. rewrite skippable_model; [reflexivity|]. rewrite <- E. apply V_funseq.
 Qed.
 
 (* ---------- the call graph ---------- *)
